@@ -701,6 +701,18 @@ fn run(db: &dyn Db, key: String, sel: FnSel, hs0: Vec<Id>, is0: Vec<(i64, Id)>) 
                     n = kid(0);
                 }
             }
+            "rv" => {
+                // rendezvous (no semantic effect): wait briefly for another thread to reach a rendezvous
+                // point too, so that both leave their bodies at the same moment (first-insert races)
+                use std::sync::atomic::AtomicU64;
+                static RV: AtomicU64 = AtomicU64::new(0);
+                let my = RV.fetch_add(1, Ordering::SeqCst);
+                let t0 = std::time::Instant::now();
+                while RV.load(Ordering::SeqCst) / 2 <= my / 2 && t0.elapsed() < std::time::Duration::from_micros(400) {
+                    std::hint::spin_loop();
+                }
+                n = kid(0);
+            }
             "orc" => {
                 r |= nd.a;
                 n = kid(0);
